@@ -130,8 +130,8 @@ fn gen_point(rng: &mut Rng, p: &Patch) -> (f32, f32) {
 
 /// a query coordinate (as the f64 that goes into the JSON) and the branch name
 fn gen_query_coord(rng: &mut Rng, p: &Patch, anchors: &[(f32, f32)]) -> ((f64, f64), &'static str) {
-    match rng.below(12) {
-        0 | 1 | 2 | 3 => {
+    match rng.below(16) {
+        0 | 1 | 2 | 3 | 12 | 13 => {
             if p.dyadic {
                 // half-lattice points: many exact ties
                 let step = 1.0 / 256.0;
@@ -142,11 +142,11 @@ fn gen_query_coord(rng: &mut Rng, p: &Patch, anchors: &[(f32, f32)]) -> ((f64, f
                 ((rng.uniform(p.x0, p.x0 + p.w), rng.uniform(p.y0, p.y0 + p.h)), "q_inside")
             }
         }
-        4 if !anchors.is_empty() => {
+        4 | 14 if !anchors.is_empty() => {
             let a = anchors[rng.below(anchors.len())];
             ((a.0 as f64, a.1 as f64), "q_on_element")
         }
-        5 if !anchors.is_empty() => {
+        5 | 15 if !anchors.is_empty() => {
             // a few metres to a few hundred metres from an element
             let a = anchors[rng.below(anchors.len())];
             let r = 10f64.powf(rng.uniform(-5.0, -2.0));
@@ -348,8 +348,8 @@ fn gen_tolerance(rng: &mut Rng, limit_m: Option<f64>, limit_code: &dyn Fn(&Dista
         return (None, "tol_none");
     }
     let u = *rng.pick(&D);
-    match rng.below(10) {
-        0 | 1 => {
+    match rng.below(20) {
+        0 | 1 | 2 | 3 => {
             // exactly the value the code compares with, and its neighbours
             if let Some(l) = limit_code(&u) {
                 let bits = l.to_bits();
@@ -362,7 +362,7 @@ fn gen_tolerance(rng: &mut Rng, limit_m: Option<f64>, limit_code: &dyn Fn(&Dista
             }
             (Some((1.0, u)), "tol_unit")
         }
-        2 | 3 => {
+        4 | 5 | 6 | 7 | 8 => {
             // around the great-circle distance in metres, converted with the SI factor
             if let Some(m) = limit_m {
                 let f = *rng.pick(&[0.5, 0.9, 0.99, 1.0, 1.01, 1.1, 2.0]);
@@ -370,9 +370,9 @@ fn gen_tolerance(rng: &mut Rng, limit_m: Option<f64>, limit_code: &dyn Fn(&Dista
             }
             (Some((100.0 / si_d(&u), u)), "tol_100m")
         }
-        4 => (Some((0.0, u)), "tol_zero"),
-        5 => (Some((-rng.uniform(0.0, 10.0), u)), "tol_negative"),
-        6 => (Some((1.0e9 / si_d(&u), u)), "tol_huge"),
+        9 => (Some((0.0, u)), "tol_zero"),
+        10 => (Some((-rng.uniform(0.0, 10.0), u)), "tol_negative"),
+        11 | 12 => (Some((1.0e9 / si_d(&u), u)), "tol_huge"),
         _ => {
             let m = 10f64.powf(rng.uniform(-1.0, 5.5));
             (Some((m / si_d(&u), u)), "tol_random")
@@ -497,9 +497,10 @@ fn vertex_case(ctx: &mut Ctx, idx: usize, files: &Files, forced: Option<usize>) 
     let patch = gen_patch(&mut rng);
     // vertices
     let n = match forced {
-        Some(_) => 3,
+        Some(0) => 3,
+        Some(_) => 1,
         None => match rng.below(10) {
-            0 => 0,
+            0 => rng.below(2),
             1 => 1,
             2 | 3 => 2 + rng.below(5),
             4 | 5 | 6 => 7 + rng.below(30),
@@ -526,6 +527,11 @@ fn vertex_case(ctx: &mut Ctx, idx: usize, files: &Files, forced: Option<usize>) 
         pts = vec![(0.0, 0.0), (1.0, 1.0), (2.0, 2.0)];
         ids = vec![0, 1, 2];
     }
+    if forced == Some(1) {
+        // witness of vertex-match/tolerance-boundary: one vertex, tolerance = its exact distance
+        pts = vec![(0.0, 0.0)];
+        ids = vec![0];
+    }
     let mut csv = String::from("vertex_id,x,y\n");
     for (i, p) in ids.iter().zip(pts.iter()) {
         csv.push_str(&format!("{},{},{}\n", i, p.0, p.1));
@@ -541,6 +547,10 @@ fn vertex_case(ctx: &mut Ctx, idx: usize, files: &Files, forced: Option<usize>) 
         // the repository's own test case
         o = (0.1, 0.1);
         d = Some(((1.9, 2.1), "q_inside"));
+    }
+    if forced == Some(1) {
+        o = (0.0, 0.001);
+        d = None;
     }
     ctx.count(&format!("vertex_origin_{}", ob));
     match &d {
@@ -558,6 +568,9 @@ fn vertex_case(ctx: &mut Ctx, idx: usize, files: &Files, forced: Option<usize>) 
     let (mut tol, tb) = gen_tolerance(&mut rng, limit_m, &limit_code);
     if forced == Some(0) {
         tol = None;
+    }
+    if forced == Some(1) {
+        tol = limit_m.map(|m| (m, DistanceUnit::Meters));
     }
     ctx.count(&format!("vertex_{}", if forced.is_some() { "corpus" } else { tb }));
 
@@ -760,7 +773,7 @@ fn edge_case(ctx: &mut Ctx, idx: usize, files: &Files, forced: Option<usize>) {
     let n = match forced {
         Some(_) => 1,
         None => match rng.below(10) {
-            0 => 0,
+            0 => rng.below(2),
             1 => 1,
             2 | 3 | 4 => 2 + rng.below(6),
             5 | 6 | 7 => 8 + rng.below(30),
@@ -838,7 +851,7 @@ fn edge_case(ctx: &mut Ctx, idx: usize, files: &Files, forced: Option<usize>) {
     let mut extra: Vec<(String, Value)> = vec![];
     let mut classes_branch = "edge_road_classes_absent";
     if forced.is_none() && rng.chance(3, 5) {
-        let (v, b) = match rng.below(12) {
+        let (v, b) = match rng.below(24) {
             0 => (json!([]), "edge_road_classes_empty"),
             1 => (json!([300]), "edge_road_classes_out_of_u8"),
             2 => (json!([-1, 0]), "edge_road_classes_negative"),
@@ -1005,8 +1018,12 @@ fn edge_case(ctx: &mut Ctx, idx: usize, files: &Files, forced: Option<usize>) {
         if adm.is_empty() {
             ctx.count("edge_no_admissible_candidate");
         }
-        if adm.len() < scan.cands.len() && !adm.is_empty() && scan.cands.first().map(|c| !admissible(c)).unwrap_or(false) {
-            ctx.count("edge_nearest_is_inadmissible");
+        if !adm.is_empty() {
+            if let Some(c) = scan.cands.first() {
+                if !admissible(c) {
+                    ctx.count(if !c.3 { "edge_nearest_skipped_by_vehicle_restriction" } else { "edge_nearest_skipped_by_road_class" });
+                }
+            }
         }
         match (min, &tol) {
             (None, _) => {
@@ -1096,7 +1113,10 @@ pub fn run(ctx: &mut Ctx) -> &'static str {
             edge_case(ctx, idx, &files, Some(k));
         }
     }
-    let n = ctx.n(1200, 30000);
+    if let Some(idx) = ctx.begin() {
+        vertex_case(ctx, idx, &files, Some(1));
+    }
+    let n = ctx.n(4000, 80000);
     for i in 0..n {
         let Some(idx) = ctx.begin() else { continue };
         if i % 2 == 0 {
